@@ -133,19 +133,30 @@ theorem C03_total (opt : Bool) (data : Bytes) :
 example : parse true [0x04, 0x00] = .error .syntax ∧ parse true [0x82] = .ok [] ∧
     parse true [0x82, 0x2d] = .error .eof := ⟨rfl, rfl, rfl⟩
 
-/- **Faithfulness, full statement (not yet proved beyond the flat fragment):**
+/-- **Faithfulness.**  For every well-formed document of the model `Spec/BinTapeDoc.lean` — keys and
+values of all ten binary scalar types, objects and arrays nested to any depth, empty containers,
+rgb blocks (one `Rgb` token directly after `key =`; elsewhere the marker as an id plus an array of
+`U32`), ghost `{}` objects in front of any key, also directly after `{` (only not in front of the
+very first key of the document, which both parsers reject) — and for every binary encoding of its
+scalars, both parsers return exactly `tapeOfBin doc`: the document's keys and values with their
+binary types and payloads, containers classified object / array and delimited by their `End`
+indices, ghost objects dropped.
+(Object→array *mixed* containers are not part of this document model; see `C03_faithful_mixed…`
+/ the `btexp` correspondence cases.) -/
+theorem C03_faithful (doc : Fields) (hw : doc.wfDoc = true) (opt : Bool) :
+    parse opt doc.encode = .ok (tapeOfBin doc) := by
+  cases opt
+  · exact faithful_doc doc hw
+  · rw [C03_fast_eq_reference]; exact faithful_doc doc hw
 
-    theorem C03_faithful (doc : Fields) (hw : doc.wfDoc = true) (hg : no ghost `{}` directly after a `{`) :
-        parse false doc.encode = .ok (tapeOfBin doc)
-
-  for the document model of `Spec/BinTapeDoc.lean` (scalars of all ten binary types as keys and
-  values, rgb blocks, nested objects and arrays, ghost objects), and the same with object→array
-  mixed containers.  Missing: the mutual induction over `Val`/`Fields`/`Vals` (container bodies:
-  `OpenFirst → OpenSecond → '=' → Object`, array elements, the `closeTo` state after a nested
-  close, ghosts in front of the first key of a nested object, which go through the only_empties
-  rewrite).  Until then that clause is decided by the correspondence check (`btexp` cases: the
-  harness compares the real parser with the independent Rust transcription `tape_of(doc)` on every
-  generated document x encoding, the model with the real parser) and by the `example` below. -/
+/-- hypotheses satisfiable: `id = { {} {} "a" = { I32 1 rgb{1 2 3} { } }  {} I32 5 = rgb{1 2 3 4} }  {} 11 = { }` -/
+example :
+    let doc : Fields :=
+      .cons 0 (.id 0x2d82) (.obj (.cons 2 (.quoted [97])
+          (.arr (.cons (.sc (.i32 [1, 0, 0, 0])) (.cons (.rgb [1, 0, 0, 0] [2, 0, 0, 0] [3, 0, 0, 0] none) (.cons (.arr .nil) .nil))))
+        (.cons 1 (.i32 [5, 0, 0, 0]) (.rgb [1, 0, 0, 0] [2, 0, 0, 0] [3, 0, 0, 0] (some [4, 0, 0, 0])) .nil)))
+      (.cons 1 (.id 11) (.arr .nil) .nil)
+    doc.wfDoc = true := by decide
 
 /-- Faithfulness on flat documents: for every document whose values are all scalars — keys and values
 of any of the ten binary scalar types, any number of ghost `{}` objects in front of every key
